@@ -147,11 +147,9 @@ def implSections (r : String) : List String × List String × List String :=
 def renderOpt (q : QTok) (scope : Option Nat) (refusedLike : Bool) : String :=
   if ¬ q.opt then "none"
   else
-    let extra : List String :=
-      -- REFUSED/BADVERS replies get the request's OPT back from coredns, filtered to the options it
-      -- supports (NSID 3, COOKIE 10, …) — never ECS, never unknown codes
-      if refusedLike then (if q.extraOpt = 1 then ["c10"] else if q.extraOpt = 2 then ["c3"] else [])
-      else []
+    -- BADVERS replies carry the bare OPT built by coredns' edns.Version; every other reply the
+    -- handler's own OPT with the client-subnet option only
+    let extra : List String := []
     let ecs : List String :=
       if refusedLike then []
       else match q.ecs, scope with
@@ -182,7 +180,7 @@ def answerOne (b : Backend) (store : Store) (q : QTok) (implResult : String) : S
       let aa := if r.aa then 1 else 0
       s!"rc={r.rcode},aa={aa},id=ok,q=same,an={renderSection r.answer r.answerAddrs ian},"
         ++ s!"ns={renderSection r.ns [] []},ar={renderSection [] r.extra iar},"
-        ++ renderOpt q scope (r.rcode = 5)
+        ++ renderOpt q scope false
 
 
 /-! ### the Spec oracle: records, maps and subnets of the data file, independent of key layout -/
